@@ -19,7 +19,7 @@ from .. import harness as H
 from ..ref import rfc6455 as R
 from ..ref import utf8 as U
 
-SHARDS = {"quick": 4, "thorough": 16}
+SHARDS = {"quick": 5, "thorough": 17}
 META = {
     "level": "exploration",
     "technique": "runtime monitoring: reference-automaton conformance test (W-method) of the real validator + receive-path oracle over fragmentations",
@@ -94,7 +94,22 @@ def check_validator(res, W, data: bytes, gen):
 
 
 def run(res, tier, seed, shard, nshards):
+    # the last shard repeats the first shard's share of the work with a stand-in for the optional wsaccel extension on the import path,
+    # so that the library's "if wsaccel is available" branch of the validator is executed at all (see wsverif/standins/wsaccel)
+    wsaccel_shard = shard == nshards - 1
+    nshards -= 1
+    if wsaccel_shard:
+        import os
+        import sys
+        sys.path.insert(0, os.path.join(os.path.dirname(os.path.dirname(os.path.abspath(__file__))), "standins"))
+        shard = 0
     W = H.ws()
+    if wsaccel_shard:
+        if hasattr(W._utils, "_UTF8_ACCEPT") or "wsaccel" not in sys.modules:
+            res.inconc("the wsaccel stand-in was not picked up by the library")
+            return
+        res.count("validator_calls_on_the_wsaccel_branch_marker")
+        res.notes["wsaccel_branch"] = "shard run with wsverif/standins/wsaccel on the import path (stand-in following wsaccel's documented incremental contract)"
     rng = random.Random((seed << 8) ^ shard)
     # reference self-check against CPython (oracle vs oracle)
     for _ in range(2000):
